@@ -23,8 +23,8 @@ ID = "C18"
 LEVEL = "exploration"
 TECHNIQUE = "deterministic line-level thread scheduler: bounded-exhaustive (<= 1 preemption, <= 2 in a window) and generated schedules of concurrent stepping requests; history invariant"
 RULE = ("cases = (list of 2-3 concurrent requests out of run-step / run-steps 2 / stream-steps, schedule) where a schedule is a set of "
-        "preemption points or a choice list over the executed source lines of server/bptkServer.py and bptk.py; also error and "
-        "client-abort endings. Invariant: consecutive times per response, no duplicate time, clock == start + steps*dt, unlocked and "
+        "preemption points or a choice list over the executed source lines of server/bptkServer.py and bptk.py; also ten error / "
+        "client-abort endings (incl. a body iterable closed before its first chunk), servers with a FileAdapter, a concurrent GET /save-state and a final POST /load-state. Invariant: consecutive times per response, no duplicate time, clock == start + steps*dt, unlocked and "
         "usable afterwards. non-trivial = schedule with >= 1 preemption (a switch between the requests' traced lines); distinct by case")
 ASSUMPTIONS = [
     "resolution = source lines of bptkServer.py and bptk.py; Flask/Werkzeug internals and the simulation run unscheduled but atomically (one controlled thread runs at a time)",
